@@ -480,5 +480,17 @@ def pmap(fn, items, procs: int | None = None, chunksize: int = 1):
     if procs <= 1:
         return [fn(x) for x in items]
     ctx = mp.get_context("fork")
-    with ctx.Pool(procs) as pool:
+    with ctx.Pool(procs, initializer=_die_with_parent) as pool:
         return pool.map(fn, items, chunksize=chunksize)
+
+
+def _die_with_parent():
+    """worker initializer: ask the kernel to kill this worker when the check's main process dies (a check killed by an outer `timeout`
+    otherwise leaves its pool workers running - one such set span for hours on a patched library that never returned)"""
+    try:
+        import ctypes
+        import signal
+
+        ctypes.CDLL("libc.so.6", use_errno=True).prctl(1, signal.SIGKILL)  # PR_SET_PDEATHSIG
+    except Exception:  # noqa: BLE001 - not Linux / no libc: nothing to do
+        pass
